@@ -669,8 +669,10 @@ pub(crate) fn run(
                 }
                 Insn::BackrefExistsCondition(group) => {
                     let lo = state.get(group * 2);
-                    if lo == usize::MAX {
-                        // Referenced group hasn't matched, so the backref doesn't match either
+                    let hi = state.get(group * 2 + 1);
+                    if lo == usize::MAX || hi == usize::MAX {
+                        // Referenced group hasn't matched (it may be open, but a group that
+                        // has only been entered has not matched yet)
                         break 'fail;
                     }
                 }
